@@ -32,6 +32,7 @@
 
 #define P_RWLOCK_SET_READERS(lock, readers) (((lock) & (~0x00007FFF)) | (readers))
 #define P_RWLOCK_READER_COUNT(lock) ((lock) & 0x00007FFF)
+#define P_RWLOCK_MAX_READERS 0x00007FFF
 #define P_RWLOCK_SET_WRITERS(lock, writers) (((lock) & (~0x3FFF8000)) | ((writers) << 15))
 #define P_RWLOCK_WRITER_COUNT(lock) (((lock) & 0x3FFF8000) >> 15)
 
@@ -109,6 +110,13 @@ p_rwlock_reader_lock (PRWLock *lock)
 							      P_RWLOCK_READER_COUNT (lock->waiting_threads) - 1);
 	}
 
+	/* The readers counter is 15 bits wide: one more reader would carry into the writers field */
+	if (P_UNLIKELY (wait_ok == TRUE &&
+			P_RWLOCK_READER_COUNT (lock->active_threads) == P_RWLOCK_MAX_READERS)) {
+		P_ERROR ("PRWLock::p_rwlock_reader_lock: maximum number of readers reached");
+		wait_ok = FALSE;
+	}
+
 	if (P_LIKELY (wait_ok == TRUE))
 		lock->active_threads = P_RWLOCK_SET_READERS (lock->active_threads,
 							     P_RWLOCK_READER_COUNT (lock->active_threads) + 1);
@@ -132,7 +140,8 @@ p_rwlock_reader_trylock (PRWLock *lock)
 		return FALSE;
 	}
 
-	if (P_RWLOCK_WRITER_COUNT (lock->active_threads)) {
+	if (P_RWLOCK_WRITER_COUNT (lock->active_threads) ||
+	    P_RWLOCK_READER_COUNT (lock->active_threads) == P_RWLOCK_MAX_READERS) {
 		if (P_UNLIKELY (p_mutex_unlock (lock->mutex) == FALSE))
 			P_ERROR ("PRWLock::p_rwlock_reader_trylock: p_mutex_unlock() failed(1)");
 
